@@ -143,7 +143,9 @@ def to_wikitext(
                 parts.append("\n|+ {} |\n".format(tc_attrs))
             else:
                 parts.append("\n|+\n")
-            parts.append(recurse(node.children))
+            # Leading blanks would turn the caption into preformatted text
+            # now that it starts a line of its own
+            parts.append(recurse(node.children).lstrip(" \t"))
         elif kind == NodeKind.TABLE_ROW:
             parts.append("\n|- {}\n".format(to_attrs(node)))
             parts.append(recurse(node.children))
